@@ -3,7 +3,9 @@
    Node/C02CheckProofs.v.  Model: Node/Instance.v. *)
 From Coq Require Import List Arith.
 Import ListNotations.
-From Onet Require Import Base.Corr Node.Instance Node.Obs Node.VerifyProofs Corr.C02 Node.C02CheckProofs.
+From Onet Require Node.Dispatch Node.DispatchProofs.
+From Onet Require Import Base.Corr Node.Instance Node.Obs Node.VerifyProofs Corr.C02 Node.C02CheckProofs
+  Node.Pipeline Node.PipelineProofs.
 
 (* First sentence of the property.  For EVERY variant of the code (pinned or
    repaired), every tree, every instance table, every registration table and
@@ -176,3 +178,87 @@ Example c02_repaired_on_witnesses :
   run repaired c (mk (Some 7)) = [RStep [] SErr] /\ run repaired c (mk None) = [RStep [] SErr].
 Proof. exact repaired_on_witnesses. Qed.
 Print Assumptions c02_repaired_on_witnesses.
+
+(* ---- linked with the C05 model: every interleaving -------------------------
+   Node/Pipeline.v runs the C05 reader/queue transition system (Node/Dispatch.v)
+   and the message semantics above as ONE system: any number of instances,
+   feeders / readers / closes in any order; when the reader of instance i pops
+   message id m, [tbl m] goes through dispatchMsgToProtocol of instance i.  *)
+
+(* The log of instance i is the sequential semantics [run f c] on the messages
+   its reader has started, and those are a prefix of the accepted ones (the
+   rest is still in the dispatch queue): "one dispatch goroutine per instance
+   processes messages in queue order" is a theorem here, not an assumption. *)
+Theorem c02_log_is_sequential : forall f c tbl n acts st i ci,
+  prun f c tbl (pinit n) acts = Some st -> nth_error (p_sys st) i = Some ci ->
+  ilog i (p_log st) = run f c (started_inj tbl i ci) /\
+  accepted_inj tbl i ci =
+    started_inj tbl i ci ++ map (fun m => with_inst i (tbl m)) (Dispatch.queue ci).
+Proof. exact pipeline_order. Qed.
+Print Assumptions c02_log_is_sequential.
+
+(* C02 for the combined system: whatever a handler or channel of any instance
+   receives in any reachable state -- under every interleaving, for both code
+   variants -- comes from a message that instance accepted, names a node of
+   the tree, that node is the one the message claims, and it is hosted by the
+   key on the envelope the message arrived in; an invalid sender is never
+   delivered. *)
+Theorem c02_holds_under_every_interleaving : forall f c tbl n acts st i ci ds s0 d pos m,
+  prun f c tbl (pinit n) acts = Some st -> nth_error (p_sys st) i = Some ci ->
+  In (i, RStep ds s0) (p_log st) -> In d ds -> In (EMsg pos m) (d_batch d) ->
+  exists mid nd,
+    In mid (Dispatch.accepted ci) /\
+    nth_error (nodes (c_tree c)) pos = Some nd /\
+    w_from (i_wire (tbl mid)) = Some (n_id nd) /\
+    (i_env (tbl mid) = PNone \/ i_env (tbl mid) = PKey (n_srv nd)) /\
+    p_payload m = w_payload (i_wire (tbl mid)) /\ p_type m = w_type (i_wire (tbl mid)) /\
+    ~ invalid_sender (nodes (c_tree c)) (p_from m) (p_peer m).
+Proof. exact pipeline_authentic. Qed.
+Print Assumptions c02_holds_under_every_interleaving.
+
+(* ... no placeholder with the F02 repair, no panic with the F03 repair (or when
+   every message carries a sender token), under every interleaving; and then
+   the combined system never halts before the C05 system does. *)
+Theorem c02_no_placeholder_under_every_interleaving : forall f c tbl n acts st i ds s0 d,
+  fix_f02 f = true ->
+  prun f c tbl (pinit n) acts = Some st ->
+  In (i, RStep ds s0) (p_log st) -> In d ds -> ~ In EZero (d_batch d).
+Proof. exact pipeline_no_placeholder. Qed.
+Print Assumptions c02_no_placeholder_under_every_interleaving.
+
+Theorem c02_no_panic_under_every_interleaving : forall f c tbl n acts st,
+  panic_free f tbl -> prun f c tbl (pinit n) acts = Some st ->
+  p_dead st = false /\ forall i r, In (i, r) (p_log st) -> is_crash r = false.
+Proof. exact pipeline_no_panic. Qed.
+Print Assumptions c02_no_panic_under_every_interleaving.
+
+(* the C05 component of the combined run IS the C05 run (so the C05 theorems
+   transfer), and without panics the combined system follows every C05 run *)
+Theorem c02_pipeline_projection : forall f c tbl acts st st',
+  prun f c tbl st acts = Some st' -> Dispatch.run (p_sys st) acts = Some (p_sys st').
+Proof. exact pipeline_projection. Qed.
+Print Assumptions c02_pipeline_projection.
+
+Theorem c02_pipeline_total : forall f c tbl acts st s,
+  panic_free f tbl -> PInv f c tbl st -> p_dead st = false ->
+  Dispatch.run (p_sys st) acts = Some s ->
+  exists st', prun f c tbl st acts = Some st' /\ p_sys st' = s /\ p_dead st' = false.
+Proof. exact pipeline_total. Qed.
+Print Assumptions c02_pipeline_total.
+
+(* a reachable combined state: two instances, feeders and readers interleaved,
+   an aggregated batch delivered to instance 0 while instance 1 still waits *)
+Example c02_pipeline_example :
+  exists st,
+    prun repaired ex_cfg ex_tbl (pinit 2)
+      [(0, Dispatch.AAccept 1); (1, Dispatch.AAccept 3); (0, Dispatch.ACheck); (1, Dispatch.ACheck);
+       (0, Dispatch.AAccept 2); (0, Dispatch.AEnd); (1, Dispatch.AEnd); (0, Dispatch.ACheck)] = Some st /\
+    p_dead st = false /\
+    ilog 0 (p_log st) =
+      [RStep [] SWait;
+       RStep [{| d_type := 2; d_kind := Handler; d_agg := true;
+                 d_batch := [EMsg 1 {| p_from := Some 1; p_peer := PKey 1; p_type := 2; p_payload := 1 |};
+                             EMsg 2 {| p_from := Some 2; p_peer := PKey 2; p_type := 2; p_payload := 2 |}] |}] SOk] /\
+    ilog 1 (p_log st) = [RStep [] SWait].
+Proof. exact pipeline_example. Qed.
+Print Assumptions c02_pipeline_example.
